@@ -85,6 +85,9 @@ Definition kit_concat : kit concat cmod (list str) :=
       (list_eqb str_eqb) pcat.
 Definition kit_affine : kit affine (Z * Z) (Z * Z) :=
   Kit af_merge (upd_of af_merge) af_modify af_push af_default af_eqb af_obs af_vmerge af_act zz_eqb (ppair pz pz).
+(** observable value (ones, len); the value algebra of the merge is that of SumAdd's (componentwise +) *)
+Definition kit_flip : kit flip unit (Z * Z) :=
+  Kit fl_merge (upd_of fl_merge) fl_modify fl_push fl_default fl_eqb fl_obs sa_vmerge fl_act zz_eqb (ppair pz pz).
 
 Definition hist (T M : Type) : Type := list (op T M pred) * list (out T).
 
@@ -125,7 +128,8 @@ Inductive case :=
 | CComb2 (h : hist (vadd * vadd) Z)
 | CComb3 (h : hist ((vadd * vadd) * sumadd) Z)
 | CConcat (h : hist concat cmod)
-| CAffine (h : hist affine (Z * Z)).
+| CAffine (h : hist affine (Z * Z))
+| CFlip (h : hist flip unit).
 
 Definition model_check (c : case) : bool :=
   match c with
@@ -139,6 +143,7 @@ Definition model_check (c : case) : bool :=
   | CComb3 h => model_check_k kit_comb3 h
   | CConcat h => model_check_k kit_concat h
   | CAffine h => model_check_k kit_affine h
+  | CFlip h => model_check_k kit_flip h
   end.
 
 Definition spec_check_gen (ca cb : bool) (c : case) : bool :=
@@ -153,6 +158,7 @@ Definition spec_check_gen (ca cb : bool) (c : case) : bool :=
   | CComb3 h => spec_check_k kit_comb3 ca cb h
   | CConcat h => spec_check_k kit_concat ca cb h
   | CAffine h => spec_check_k kit_affine ca cb h
+  | CFlip h => spec_check_k kit_flip ca cb h
   end.
 
 (** C01: every query answer and every debug() listing equals the plain array's *)
@@ -168,7 +174,8 @@ Inductive explained :=
 | EC2 (x : list (out (vadd * vadd)) * list (sout (Z * Z) pred))
 | EC3 (x : list (out ((vadd * vadd) * sumadd)) * list (sout ((Z * Z) * (Z * Z)) pred))
 | ECC (x : list (out concat) * list (sout (list str) pred))
-| EAF (x : list (out affine) * list (sout (Z * Z) pred)).
+| EAF (x : list (out affine) * list (sout (Z * Z) pred))
+| EFL (x : list (out flip) * list (sout (Z * Z) pred)).
 Definition explain (c : case) : explained :=
   match c with
   | CMin h => EZ (explain_k kit_min h)
@@ -181,4 +188,5 @@ Definition explain (c : case) : explained :=
   | CComb3 h => EC3 (explain_k kit_comb3 h)
   | CConcat h => ECC (explain_k kit_concat h)
   | CAffine h => EAF (explain_k kit_affine h)
+  | CFlip h => EFL (explain_k kit_flip h)
   end.
